@@ -87,6 +87,32 @@ Definition so_and_then (x : option Z) (f : Z -> option Z) : option Z :=
   match x with Some v => f v | None => None end.
 Definition so_or_else (x : option Z) (g : option Z) : option Z := match x with Some _ => x | None => g end.
 
+(* [optional.monadic] / [optional.observe] by value category q of the object: the rvalue overloads
+   use std::move( **this) (resp. std::move( *this)), so a non-const rvalue optional is left engaged
+   with a moved-from value whenever something is move-constructed from it *)
+Definition so_and_then_q (T : ty) (q : qual) (x : option Z) (f : Z -> option Z) (byval : bool)
+  : option Z * option qual * option Z :=
+  match x with
+  | Some v => (f v, Some q, if is_rv q && byval then Some (moved_val T v) else x)
+  | None => (None, None, None)
+  end.
+Definition so_or_else_q (T : ty) (q : qual) (x : option Z) (g : option Z) : option Z * option Z :=
+  match x with
+  | Some v => (Some v, if is_rv q then Some (moved_val T v) else x)
+  | None => (g, None)
+  end.
+Definition so_value_or_q (T : ty) (q : qual) (x : option Z) (d : Z) : Z * option Z :=
+  match x with
+  | Some v => (v, if is_rv q then Some (moved_val T v) else x)
+  | None => (d, None)
+  end.
+(* T y = *obj; None: the precondition has_value() does not hold *)
+Definition so_take_q (T : ty) (q : qual) (x : option Z) : option (Z * option Z) :=
+  match x with
+  | Some v => Some (v, if is_rv q then Some (moved_val T v) else x)
+  | None => None
+  end.
+
 (* [optional.relops] *)
 Definition so_rel (k : nat) (x y : option Z) : bool :=
   match k, x, y with
@@ -161,6 +187,36 @@ Definition se_and_then (x : sexp) (f : Z -> bool * Z) : bool * Z :=
 Definition se_or_else (x : sexp) (g : Z -> bool * Z) : bool * Z :=
   match x with inl v => (true, v) | inr e => g e end.
 
+(* [expected.object.monadic] with the object's value category q: the & and const& overloads use
+   **this and error(), the && and const&& overloads std::move( **this) and std::move(error()).
+   Result, the category the callable is invoked with (None: not invoked), the object afterwards:
+   something is move-constructed from the object's value (error) exactly when the object is a
+   non-const rvalue and the result's error / value is built from it, or the callable takes its
+   parameter by value. *)
+Definition se_and_then_q (T E : ty) (q : qual) (x : sexp) (f : Z -> bool * Z) (byval : bool)
+  : (bool * Z) * option qual * sexp :=
+  match x with
+  | inl v => (f v, Some q, if is_rv q && byval then inl (moved_val T v) else x)
+  | inr e => ((false, e), None, if is_rv q then inr (moved_val E e) else x)
+  end.
+Definition se_or_else_q (T E : ty) (q : qual) (x : sexp) (g : Z -> bool * Z) (byval : bool)
+  : (bool * Z) * option qual * sexp :=
+  match x with
+  | inl v => ((true, v), None, if is_rv q then inl (moved_val T v) else x)
+  | inr e => (g e, Some q, if is_rv q && byval then inr (moved_val E e) else x)
+  end.
+
+Definition se_value_or_q (T : ty) (q : qual) (x : sexp) (d : Z) : Z * sexp :=
+  match x with
+  | inl v => (v, if is_rv q then inl (moved_val T v) else x)
+  | inr _ => (d, x)
+  end.
+(* T y = *obj / E y = obj.error(); None: the precondition does not hold *)
+Definition se_take_q (T : ty) (q : qual) (x : sexp) : option (Z * sexp) :=
+  match x with inl v => Some (v, if is_rv q then inl (moved_val T v) else x) | inr _ => None end.
+Definition se_take_error_q (E : ty) (q : qual) (x : sexp) : option (Z * sexp) :=
+  match x with inr e => Some (e, if is_rv q then inr (moved_val E e) else x) | inl _ => None end.
+
 (** * optional<T&> (P2988): rebinding reference = nullable pointer to a referent.  State: the
    referent cells, the source std::optional<T0> (an option), the three pointers (a, b), z.
    A step is undefined (None) exactly when the program writes through a reference whose referent's
@@ -187,10 +243,10 @@ Definition sr_step (s : srstate) (o : rop) : option srstate :=
   | RSelf _ => Some s
   | RCellSet c v => Some (sr_set cs c v, sr, (ab, z))
   (* [optional.ref.ctor]: rhs.has_value() ? binds to *rhs : disengaged *)
-  | RFromOpt t =>
+  | RFromOpt t | RAssignOpt t =>     (* x = rhs is x = optional<T&>(rhs): P2988 has no converting assignment *)
     let '(_, y) := spick t ab in
     Some (cs, sr, (sput t (match sr with Some _ => Some RSrc | None => None end) y, z))
-  | RFromRef t => let '(_, y) := spick t ab in Some (cs, sr, (sput t z y, z))
+  | RFromRef t | RAssignRef t => let '(_, y) := spick t ab in Some (cs, sr, (sput t z y, z))
   | RZBind c => Some (cs, sr, (ab, Some (RCell c)))
   | RZNull => Some (cs, sr, (ab, None))
   | RSrcAssign v | RSrcEmplace v => Some (cs, Some v, (ab, z))
